@@ -360,7 +360,7 @@ def shape_name(t: Target, kinds, npos, omit):
 
 def cases(tier, seed):
     max_arity = 2 if tier == "quick" else 3
-    N = 2
+    N = 2 if tier == "quick" else 3
     cs = [Case("merge_args_and_kwargs", merge_case(), reset=eql_reset)]
     for what in ("pred", "fn"):
         cs.append(Case("%s(value-equal candidates)" % what, value_equal_case(what, 3), reset=eql_reset, timeout=300))
@@ -380,7 +380,7 @@ def describe(tier):
         "x each argument a variable (x or y), an attribute of a variable (x.b) or a concrete symbolic integer x every positional/keyword split; "
         "each shape is evaluated, its data is updated, and it is evaluated again; plus value-equal-but-distinct hashable candidates; "
         "non-trivial = >= 2 feasible paths and a non-empty result on some path" % max_arity,
-        bounds=dict(arity="<= %d" % max_arity, objects_per_domain="2 (3 in the value-equal case)", argument_values="unbounded integers", variables="<= 2 (x, y)"),
+        bounds=dict(arity="<= %d" % max_arity, objects_per_domain="2 quick / 3 thorough (3 in the value-equal case)", argument_values="unbounded integers", variables="<= 2 (x, y)"),
         outside=["*args/**kwargs signatures", "arity > %d" % max_arity, "domains of more than 3 objects"],
         assumptions=["body is a weighted sum of the parameters compared with 0 (distinct weights make every position observable)",
                      "call order is not asserted, only one call per candidate binding"],
